@@ -1,1 +1,174 @@
-// cfg(kani) child module of src/.../parser.rs (see DESIGN.md §1.1)
+// cfg(kani) child module of src/parsing/parser.rs: operator precedence (C13) and clause order (C20)
+// on token sequences (the tokenizer is not involved; operator tables come through the container shim).
+#![allow(dead_code, unused_imports, unused_macros)]
+
+use std::mem::ManuallyDrop;
+
+use crate::model::{BooleanOperator, NullableCompareOperator, Value};
+use crate::parsing::operator::{BinaryOperators, Operator, UnaryOperators};
+use crate::parsing::tokenizer::{Keyword, Token};
+use crate::verif_kani::common::*;
+
+use super::{Parser, ParserExpressionTree, ParserExpressionTreeData, ParserOperationTree};
+
+// ---- C13 part 1: the precedence levels ------------------------------------------------------------
+// classes of the statement, tightest first
+const CL_POSTFIX: u8 = 6;   // cast ::, subscript [, qualified name .
+const CL_MUL: u8 = 5;       // * /
+const CL_ADD: u8 = 4;       // + -
+const CL_CMP: u8 = 3;       // < <= > >= = != IS IS NOT IN NOT IN
+const CL_AND: u8 = 2;
+const CL_OR: u8 = 1;
+
+fn class_token(class: u8, k: u8) -> Token {
+    match class {
+        CL_POSTFIX => match k % 3 { 0 => Token::DoubleColon, 1 => Token::LeftSquareParentheses, _ => Token::Operator(Operator::Single('.')) },
+        CL_MUL => if k % 2 == 0 { Token::Operator(Operator::Single('*')) } else { Token::Operator(Operator::Single('/')) },
+        CL_ADD => if k % 2 == 0 { Token::Operator(Operator::Single('+')) } else { Token::Operator(Operator::Single('-')) },
+        CL_CMP => match k % 10 {
+            0 => Token::Operator(Operator::Single('<')), 1 => Token::Operator(Operator::Dual('<', '=')),
+            2 => Token::Operator(Operator::Single('>')), 3 => Token::Operator(Operator::Dual('>', '=')),
+            4 => Token::Operator(Operator::Single('=')), 5 => Token::Operator(Operator::Dual('!', '=')),
+            6 => Token::Keyword(Keyword::Is), 7 => Token::Keyword(Keyword::IsNot),
+            8 => Token::Keyword(Keyword::In), _ => Token::Keyword(Keyword::NotIn) },
+        CL_AND => Token::Keyword(Keyword::And),
+        _ => Token::Keyword(Keyword::Or),
+    }
+}
+
+fn impl_precedence(token: Token) -> i32 {
+    let binary = ManuallyDrop::new(BinaryOperators::new());
+    let unary = ManuallyDrop::new(UnaryOperators::new());
+    let mut parser = ManuallyDrop::new(Parser::from_plain_tokens(&binary, &unary, vec![token, Token::End]));
+    let _ = parser.next();
+    match parser.get_token_precedence() { Ok(p) => p, Err(_) => -100 }
+}
+
+/// every operator of the tighter class binds strictly tighter than every operator of the looser class
+macro_rules! prec_harness {
+    ($name:ident, $tight:expr, $loose:expr) => {
+        #[kani::proof]
+        #[kani::unwind(16)]
+        #[kani::stub(alloc::fmt::format, crate::verif_kani::common::stub_format)]
+        fn $name() {
+            let k1: u8 = kani::any();
+            let k2: u8 = kani::any();
+            kani::assume(k1 < 30 && k2 < 30);
+            let p_tight = impl_precedence(class_token($tight, k1));
+            let p_loose = impl_precedence(class_token($loose, k2));
+            assert!(p_tight >= 0 && p_loose >= 0, "C13 every binary operator token has a precedence");
+            assert!(p_tight > p_loose, "C13 operators of a tighter class bind strictly tighter");
+            kani::cover!(true, "prec: end reachable");
+        }
+    };
+}
+prec_harness!(c13_prec_postfix_mul, CL_POSTFIX, CL_MUL);
+prec_harness!(c13_prec_mul_add, CL_MUL, CL_ADD);
+prec_harness!(c13_prec_add_cmp, CL_ADD, CL_CMP);
+prec_harness!(c13_prec_cmp_and, CL_CMP, CL_AND);
+prec_harness!(c13_prec_and_or, CL_AND, CL_OR);
+prec_harness!(c13_prec_mul_cmp, CL_MUL, CL_CMP);
+prec_harness!(c13_prec_add_and, CL_ADD, CL_AND);
+prec_harness!(c13_prec_cmp_or, CL_CMP, CL_OR);
+
+/// operators of one arithmetic class share one level (left-associative chains depend on it)
+#[kani::proof]
+#[kani::unwind(16)]
+#[kani::stub(alloc::fmt::format, crate::verif_kani::common::stub_format)]
+fn c13_prec_same_level() {
+    assert!(impl_precedence(Token::Operator(Operator::Single('*'))) == impl_precedence(Token::Operator(Operator::Single('/'))), "C13 * and / share a level");
+    assert!(impl_precedence(Token::Operator(Operator::Single('+'))) == impl_precedence(Token::Operator(Operator::Single('-'))), "C13 + and - share a level");
+    kani::cover!(true, "same level: end reachable");
+}
+
+// ---- C13 part 2: precedence climbing on operator chains ------------------------------------------
+fn ident(c: char) -> Token {
+    let mut s = String::new();
+    s.push(c);
+    Token::Identifier(s)
+}
+
+fn is_column(t: &ParserExpressionTree, c: char) -> bool {
+    if let ParserExpressionTreeData::ColumnAccess(name) = &t.tree {
+        name.len() == 1 && name.as_bytes()[0] == c as u8
+    } else { false }
+}
+
+fn as_binary(t: &ParserExpressionTree) -> Option<(Operator, &ParserExpressionTree, &ParserExpressionTree)> {
+    if let ParserExpressionTreeData::BinaryOperator { operator, left, right } = &t.tree { Some((*operator, &**left, &**right)) } else { None }
+}
+
+fn arith(k: u8) -> char { match k % 4 { 0 => '+', 1 => '-', 2 => '*', _ => '/' } }
+fn level(c: char) -> u8 { if c == '*' || c == '/' { 5 } else { 4 } }
+
+/// a o1 b o2 c with o1, o2 symbolic among + - * /: the tree is the standard one
+#[kani::proof]
+#[kani::unwind(16)]
+#[kani::stub(alloc::fmt::format, crate::verif_kani::common::stub_format)]
+fn c13_climb_two_arith() {
+    let o1 = arith(kani::any());
+    let o2 = arith(kani::any());
+    let tokens = vec![ident('a'), Token::Operator(Operator::Single(o1)), ident('b'), Token::Operator(Operator::Single(o2)), ident('c'), Token::End];
+    let binary = ManuallyDrop::new(BinaryOperators::new());
+    let unary = ManuallyDrop::new(UnaryOperators::new());
+    let mut parser = ManuallyDrop::new(Parser::from_plain_tokens(&binary, &unary, tokens));
+    let result = ManuallyDrop::new(parser.parse_expression());
+    assert!(result.is_ok(), "C13 a chain of binary operators parses");
+    if let Ok(tree) = &*result {
+        let top = as_binary(tree);
+        assert!(top.is_some(), "C13 the result is a binary operator node");
+        let (op, l, r) = top.unwrap();
+        if level(o2) > level(o1) {
+            // a o1 (b o2 c)
+            assert!(op == Operator::Single(o1) && is_column(l, 'a'), "C13 the tighter operator groups first");
+            let inner = as_binary(r);
+            assert!(inner.is_some(), "C13 the tighter operator groups first");
+            let (iop, il, ir) = inner.unwrap();
+            assert!(iop == Operator::Single(o2) && is_column(il, 'b') && is_column(ir, 'c'), "C13 the tighter operator groups first");
+        } else {
+            // (a o1 b) o2 c : tighter-or-equal on the left, left associativity
+            assert!(op == Operator::Single(o2) && is_column(r, 'c'), "C13 binary operators associate to the left");
+            let inner = as_binary(l);
+            assert!(inner.is_some(), "C13 binary operators associate to the left");
+            let (iop, il, ir) = inner.unwrap();
+            assert!(iop == Operator::Single(o1) && is_column(il, 'a') && is_column(ir, 'b'), "C13 binary operators associate to the left");
+        }
+    }
+    kani::cover!(level(o2) > level(o1), "climb2: tighter second reachable");
+}
+
+/// a o1 b o2 c o3 d with a low-high-low pattern (o1, o3 in + -, o2 in * /): ((a o1 (b o2 c)) o3 d)
+#[kani::proof]
+#[kani::unwind(16)]
+#[kani::stub(alloc::fmt::format, crate::verif_kani::common::stub_format)]
+fn c13_climb_low_high_low() {
+    let o1 = if kani::any() { '+' } else { '-' };
+    let o2 = if kani::any() { '*' } else { '/' };
+    let o3 = if kani::any() { '+' } else { '-' };
+    let tokens = vec![ident('a'), Token::Operator(Operator::Single(o1)), ident('b'), Token::Operator(Operator::Single(o2)), ident('c'),
+                      Token::Operator(Operator::Single(o3)), ident('d'), Token::End];
+    let binary = ManuallyDrop::new(BinaryOperators::new());
+    let unary = ManuallyDrop::new(UnaryOperators::new());
+    let mut parser = ManuallyDrop::new(Parser::from_plain_tokens(&binary, &unary, tokens));
+    let result = ManuallyDrop::new(parser.parse_expression());
+    assert!(result.is_ok(), "C13 a chain of binary operators parses");
+    if let Ok(tree) = &*result {
+        let top = as_binary(tree);
+        assert!(top.is_some(), "C13 the result is a binary operator node");
+        let (op, l, r) = top.unwrap();
+        assert!(op == Operator::Single(o3) && is_column(r, 'd'), "C13 binary operators associate to the left");
+        let mid = as_binary(l);
+        assert!(mid.is_some(), "C13 binary operators associate to the left");
+        let (mop, ml, mr) = mid.unwrap();
+        assert!(mop == Operator::Single(o1) && is_column(ml, 'a'), "C13 binary operators associate to the left");
+        let inner = as_binary(mr);
+        assert!(inner.is_some(), "C13 the tighter operator groups first");
+        let (iop, il, ir) = inner.unwrap();
+        assert!(iop == Operator::Single(o2) && is_column(il, 'b') && is_column(ir, 'c'), "C13 the tighter operator groups first");
+    }
+    kani::cover!(true, "climb3: end reachable");
+}
+
+#[cfg(test)]
+#[path = "/verif/.cache/playback/parser.rs"]
+mod playback_gen;
